@@ -24,7 +24,18 @@ class Ty(object):
         if k == 'Tuple':
             from .symexec import TupleSort
             return TupleSort([a.sort() for a in self.args])
+        if k == 'Dict': return DictSort(self.args[0].sort(), self.args[1].sort())
         raise Unsupported('no sort for %r' % self)
+
+_dict_sorts = {}
+def DictSort(ks, vs):
+    """a finite map as one term (value of another map, result of a contract): mk(has : K -> Bool, get : K -> V)"""
+    key = (str(ks), str(vs))
+    if key not in _dict_sorts:
+        d = z3.Datatype('Dict_%s_%s' % tuple(x.replace(' ', '').replace('(', '_').replace(')', '') for x in key))
+        d.declare('mkdict', ('has', z3.ArraySort(ks, BoolS)), ('get', z3.ArraySort(ks, vs)))
+        _dict_sorts[key] = d.create()
+    return _dict_sorts[key]
 
 class _T(object):
     Int, Real, Bool, Str, Text, Fn, Val = Ty('Int'), Ty('Real'), Ty('Bool'), Ty('Str'), Ty('Text'), Ty('Fn'), Ty('Val')
@@ -199,12 +210,16 @@ def wrap(ty, z):
     if k == 'List': return SeqV(z, ty.args[0])
     if k == 'Val': return Sc(z, 'val')
     if k == 'Tuple': return TupTerm(z, ty.args)
+    if k == 'Dict':
+        S = z.sort()
+        return SymDict(S.accessor(0, 0)(z), S.accessor(0, 1)(z), ty.args[0], ty.args[1])
     raise Unsupported('wrap %r' % ty)
 
 def unwrap(v):
     """value -> z3 term (for contract namespaces and for storing into sequences)"""
     if isinstance(v, (Sc, Text, Obj, FnV, SeqV, DocObj, TupTerm)): return v.z
     if isinstance(v, PyStr): return z3.StringVal(v.s)
+    if isinstance(v, SymDict): return DictSort(v.kty.sort(), v.vty.sort()).mkdict(v.has, v.get)
     if isinstance(v, PyList) or isinstance(v, Tup):
         items = [unwrap(i) for i in v.items]
         if not items: raise Unsupported('empty concrete list has no sort')
